@@ -1205,7 +1205,12 @@ func (h *setHist) run(c int, set ds.Set[E], o cop, u int) {
 		h.writes[wi].ret = ret
 		removed := private(s, res)
 		h.opA(c, call, ret, aIn{kind: aReplace, add: o.l}, aOut{removed: removed})
-		h.opB(c, call, ret, bIn{kind: bClear}, bOut{})
+		// for the single-element view a Replace is a removal of every element and an insertion of every element of its
+		// argument, each somewhere inside the call (C11 makes Replace atomic only with respect to Apply/Compute/Replace:
+		// whether the old contents vanish at once or one by one, and whether kept elements vanish at all, is open)
+		for e := 0; e < u; e++ {
+			h.opB(c, call, ret, bIn{bDel, E(e)}, bOut{})
+		}
 		for _, e := range o.l {
 			h.opB(c, call, ret, bIn{bAdd, e}, bOut{}) // whether it was new is not reported
 		}
